@@ -1,6 +1,9 @@
 //@ unit partitions
 //@ props C20
+//@@ aux self\.rank\[\w+\] = 
 use vstd::prelude::*;
+use std::cell::UnsafeCell;
+use std::collections::HashMap;
 verus! {
 
 // ---------- abstract forest semantics (spec only) ----------
@@ -349,27 +352,41 @@ proof fn lemma_push_counts(p: Seq<usize>, r: Seq<usize>)
 
 // ---------------- exec code: extracted from /repo/src/util/partitions.rs on every run ----------------
 //@ begin src/util/partitions.rs :: - :: struct IntPartitionImpl
-struct IntPartitionImpl {
-    rank: Vec<usize>,
-    parent: Vec<usize>,
+//@ rw R0 /^struct /pub struct /
+//@ rw R0 /^([ \t]+)(\w+): /\1pub \2: /
+pub struct IntPartitionImpl {
+    pub rank: Vec<usize>,
+    pub parent: Vec<usize>,
 }
 //@ end
 
+// derived Clone (dropped with the derive attribute, R0): field-wise copy
+impl Clone for IntPartitionImpl {
+    #[verifier::external_body]
+    fn clone(&self) -> (r: Self)
+        ensures r.parent@ == self.parent@, r.rank@ == self.rank@
+    { IntPartitionImpl { rank: self.rank.clone(), parent: self.parent.clone() } }
+}
+
 impl IntPartitionImpl {
-    spec fn wf(&self) -> bool {
+    pub open spec fn wf(&self) -> bool {
         &&& self.rank@.len() == self.parent@.len()
         &&& in_range(self.parent@)
         &&& acyclic(self.parent@)
-        &&& total(self.rank@) <= nonroots(self.parent@)
         &&& self.parent@.len() <= usize::MAX
     }
 
-    spec fn srep(&self, x: int) -> int { rep(self.parent@, x) }
+    // auxiliary: bounds the ranks so that `rank[x] = rx + 1` cannot overflow.  It protects a machine-arithmetic corner only and
+    // is NOT part of the partition semantics: obligations that mention it are tagged `aux` (a failure of only those is UNDECIDED)
+    pub open spec fn rank_ok(&self) -> bool { total(self.rank@) <= nonroots(self.parent@) }
+
+    pub open spec fn srep(&self, x: int) -> int { rep(self.parent@, x) }
 
     //@ begin src/util/partitions.rs :: impl IntPartitionImpl :: fn new
     //@ rw R16 /-> Self/-> (r: Self)/
     fn new() -> (r: Self)
-        ensures r.wf(), r.parent@.len() == 0
+        ensures r.wf(), r.parent@.len() == 0,
+            r.rank_ok(), // aux
     {
         IntPartitionImpl { rank: vec![], parent: vec![] }
     }
@@ -386,6 +403,7 @@ impl IntPartitionImpl {
             forall|x: int| final(self).srep(x) == old(self).srep(x),
             final(self).parent@.len() > a,
             final(self).parent@.len() >= old(self).parent@.len(),
+            old(self).rank_ok() ==> final(self).rank_ok(), // aux
     {
         let mut x = a;
         let mut root = x;
@@ -393,6 +411,7 @@ impl IntPartitionImpl {
         for i in it: self.parent.len()..(a) + 1
             invariant
                 self.wf(),
+                old(self).rank_ok() ==> self.rank_ok(), // aux
                 forall|x: int| self.srep(x) == old(self).srep(x),
                 self.parent@.len() >= old(self).parent@.len(),
                 a < usize::MAX,
@@ -408,6 +427,7 @@ impl IntPartitionImpl {
 
         while self.parent[root] != root
             invariant self.wf(), root < self.parent@.len(), a < self.parent@.len(),
+                old(self).rank_ok() ==> self.rank_ok(), // aux
                 self.parent@.len() >= old(self).parent@.len(),
                 self.srep(root as int) == self.srep(a as int),
                 forall|x: int| self.srep(x) == old(self).srep(x),
@@ -419,6 +439,7 @@ impl IntPartitionImpl {
 
         while x != root
             invariant self.wf(), root < self.parent@.len(), x < self.parent@.len(), a < self.parent@.len(),
+                old(self).rank_ok() ==> self.rank_ok(), // aux
                 self.parent@.len() >= old(self).parent@.len(),
                 self.srep(x as int) == root, self.parent@[root as int] == root,
                 root == old(self).srep(a as int),
@@ -443,6 +464,7 @@ impl IntPartitionImpl {
         ensures final(self).wf(), r == old(self).srep(a as int),
             forall|x: int| final(self).srep(x) == old(self).srep(x),
             final(self).srep(r as int) == r,
+            old(self).rank_ok() ==> final(self).rank_ok(), // aux
     {
         let __r = self.root_index(a);
         proof { lemma_rep_props(self.parent@, a as int); lemma_root_rep(self.parent@, __r as int); }
@@ -453,7 +475,9 @@ impl IntPartitionImpl {
     //@ begin src/util/partitions.rs :: impl IntPartitionImpl :: fn unite
     fn unite(&mut self, a: usize, b: usize)
         requires old(self).wf(), a < usize::MAX, b < usize::MAX,
+            old(self).rank_ok(), // aux
         ensures final(self).wf(),
+            final(self).rank_ok(), // aux
             forall|z: int| #![trigger final(self).srep(z)] final(self).srep(z) ==
                 (if old(self).srep(z) == old(self).srep(a as int) || old(self).srep(z) == old(self).srep(b as int)
                  { final(self).srep(a as int) } else { old(self).srep(z) }),
@@ -468,11 +492,18 @@ impl IntPartitionImpl {
         }
 
         if x != y {
+            proof {
+                // either link direction keeps the partition semantics: both lemmas are made available up front so that the proof
+                // does not depend on which root the rank heuristic picks
+                lemma_link(self.parent@, x as int, y as int);
+                lemma_link(self.parent@, y as int, x as int);
+                lemma_nonroots_update(self.parent@, x as int, y);
+                lemma_nonroots_update(self.parent@, y as int, x);
+            }
             let rx = self.rank[x];
             let ry = self.rank[y];
 
             if rx < ry {
-                proof { lemma_link(self.parent@, x as int, y as int); lemma_nonroots_update(self.parent@, x as int, y); }
                 self.parent[x] = y;
             } else {
                 if rx == ry {
@@ -484,12 +515,353 @@ impl IntPartitionImpl {
                     }
                     self.rank[x] = rx + 1;
                 }
-                proof { lemma_link(self.parent@, y as int, x as int); lemma_nonroots_update(self.parent@, y as int, x); }
                 self.parent[y] = x;
             }
         }
     }
     //@ end
+}
+
+
+// =====================================================================================================
+// C20 as a statement about histories: "two elements have the same representative exactly when they are connected by
+// the unions applied to that instance"
+// =====================================================================================================
+// connectivity generated by a history of unions (a, b), oldest first
+pub open spec fn conn(h: Seq<(int, int)>, x: int, y: int) -> bool
+    decreases h.len()
+{
+    if h.len() == 0 { x == y }
+    else {
+        let p = h.drop_last();
+        let a = h.last().0;
+        let b = h.last().1;
+        conn(p, x, y) || (conn(p, x, a) && conn(p, y, b)) || (conn(p, x, b) && conn(p, y, a))
+    }
+}
+
+// the postcondition of unite, as a relation between the representative functions before and after
+pub open spec fn united(r0: spec_fn(int) -> int, r1: spec_fn(int) -> int, a: int, b: int) -> bool {
+    &&& forall|z: int| #[trigger] r1(z) == (if r0(z) == r0(a) || r0(z) == r0(b) { r1(a) } else { r0(z) })
+    &&& r1(a) == r1(b)
+    &&& (r1(a) == r0(a) || r1(a) == r0(b))
+}
+
+pub open spec fn tracks(r: spec_fn(int) -> int, h: Seq<(int, int)>) -> bool {
+    forall|x: int, y: int| (#[trigger] r(x) == #[trigger] r(y)) <==> conn(h, x, y)
+}
+
+// one unite step is one unfolding of conn; find / classes / clone leave the representative function (hence conn) alone.
+// By induction over the history: after ANY sequence of operations, same representative <==> connected by the unions applied.
+pub proof fn lemma_history_step(r0: spec_fn(int) -> int, r1: spec_fn(int) -> int, h: Seq<(int, int)>, a: int, b: int)
+    requires tracks(r0, h), united(r0, r1, a, b)
+    ensures tracks(r1, h.push((a, b)))
+{
+    let h2 = h.push((a, b));
+    assert(h2.drop_last() =~= h);
+    assert(h2.last() == (a, b));
+    assert forall|x: int, y: int| (#[trigger] r1(x) == #[trigger] r1(y)) <==> conn(h2, x, y) by {
+        assert(conn(h, x, y) <==> r0(x) == r0(y));
+        assert(conn(h, x, a) <==> r0(x) == r0(a));
+        assert(conn(h, y, b) <==> r0(y) == r0(b));
+        assert(conn(h, x, b) <==> r0(x) == r0(b));
+        assert(conn(h, y, a) <==> r0(y) == r0(a));
+        assert(r1(x) == (if r0(x) == r0(a) || r0(x) == r0(b) { r1(a) } else { r0(x) }));
+        assert(r1(y) == (if r0(y) == r0(a) || r0(y) == r0(b) { r1(a) } else { r0(y) }));
+    }
+}
+
+pub proof fn lemma_history_start(r: spec_fn(int) -> int)
+    requires forall|x: int| #[trigger] r(x) == x
+    ensures tracks(r, Seq::empty())
+{}
+
+// IntPartitionImpl::unite establishes `united` (so the lemma applies to the real code)
+proof fn lemma_unite_is_united(p0: IntPartitionImpl, p1: IntPartitionImpl, a: int, b: int)
+    requires
+        forall|z: int| #![trigger p1.srep(z)] p1.srep(z) ==
+            (if p0.srep(z) == p0.srep(a) || p0.srep(z) == p0.srep(b) { p1.srep(a) } else { p0.srep(z) }),
+        p1.srep(a) == p1.srep(b),
+        p1.srep(a) == p0.srep(a) || p1.srep(a) == p0.srep(b),
+    ensures united(|z: int| p0.srep(z), |z: int| p1.srep(z), a, b)
+{
+    let r0 = |z: int| p0.srep(z);
+    let r1 = |z: int| p1.srep(z);
+    assert forall|z: int| #[trigger] r1(z) == (if r0(z) == r0(a) || r0(z) == r0(b) { r1(a) } else { r0(z) }) by {
+        assert(r1(z) == p1.srep(z));
+    }
+}
+
+// =====================================================================================================
+// IntPartition: the public wrapper.  `_impl: UnsafeCell<IntPartitionImpl>` lets `find(&self)` compress paths through a shared
+// reference; unsafe aliasing is outside Verus, so the three one-line delegations are emitted external_body with the contract
+// of the wrapped method proved above (R6).  The abstract state is the representative function, which find does not change.
+// =====================================================================================================
+#[verifier::external_body]
+//@ begin src/util/partitions.rs :: - :: struct IntPartition
+pub struct IntPartition {
+    _impl: UnsafeCell<IntPartitionImpl>,
+}
+//@ end
+
+impl IntPartition {
+    pub uninterp spec fn rep(&self, x: int) -> int;
+
+    //@ begin src/util/partitions.rs :: impl IntPartition :: fn new
+    //@ rw R16 /-> Self/-> (r: Self)/
+    #[verifier::external_body]
+    pub fn new() -> (r: Self)
+        ensures forall|x: int| #[trigger] r.rep(x) == x
+    {
+        IntPartition { _impl: UnsafeCell::new(IntPartitionImpl::new())}
+    }
+    //@ end
+
+    //@ begin src/util/partitions.rs :: impl IntPartition :: fn find
+    //@ rw R16 /-> usize/-> (r: usize)/
+    #[verifier::external_body]
+    pub fn find(&self, x: usize) -> (r: usize)
+        requires x < usize::MAX
+        ensures r == self.rep(x as int), self.rep(r as int) == r
+    {
+        unsafe { (*self._impl.get()).find(x) }
+    }
+    //@ end
+
+    //@ begin src/util/partitions.rs :: impl IntPartition :: fn unite
+    #[verifier::external_body]
+    pub fn unite(&mut self, x: usize, y: usize)
+        requires x < usize::MAX, y < usize::MAX
+        ensures united(|z: int| old(self).rep(z), |z: int| final(self).rep(z), x as int, y as int)
+    {
+        unsafe { (*self._impl.get()).unite(x, y) };
+    }
+    //@ end
+}
+
+// the elements of s whose representative is r, in order
+pub open spec fn sel(p: &IntPartition, s: Seq<usize>, r: int) -> Seq<usize>
+    decreases s.len()
+{
+    if s.len() == 0 { Seq::empty() }
+    else {
+        let t = sel(p, s.drop_last(), r);
+        if p.rep(s.last() as int) == r { t.push(s.last()) } else { t }
+    }
+}
+
+proof fn lemma_sel_push(p: &IntPartition, s: Seq<usize>, x: usize, r: int)
+    ensures sel(p, s.push(x), r) == (if p.rep(x as int) == r { sel(p, s, r).push(x) } else { sel(p, s, r) })
+{
+    assert(s.push(x).drop_last() =~= s);
+}
+
+proof fn lemma_sel_none(p: &IntPartition, s: Seq<usize>, r: int)
+    requires forall|j: int| 0 <= j < s.len() ==> p.rep(#[trigger] s[j] as int) != r
+    ensures sel(p, s, r) == Seq::<usize>::empty()
+    decreases s.len()
+{
+    if s.len() > 0 {
+        assert forall|j: int| 0 <= j < s.drop_last().len() implies p.rep(#[trigger] s.drop_last()[j] as int) != r by { assert(s.drop_last()[j] == s[j]); }
+        lemma_sel_none(p, s.drop_last(), r);
+        assert(p.rep(s[s.len() - 1] as int) != r);
+    }
+}
+
+// what `classes` returns for the first n queried elements
+pub open spec fn classes_ok(p: &IntPartition, elms: Seq<usize>, n: int, cs: Seq<Vec<usize>>, firsts: Seq<int>) -> bool {
+    &&& firsts.len() == cs.len()
+    // class k is non-empty and is exactly the queried elements with its representative, in query order ...
+    &&& forall|k: int| 0 <= k < cs.len() ==> (#[trigger] cs[k])@.len() > 0 && cs[k]@ == sel(p, elms.take(n), p.rep(cs[k]@[0] as int))
+    // ... classes have pairwise different representatives ...
+    &&& forall|k: int, l: int| 0 <= k < l < cs.len() ==> p.rep((#[trigger] cs[k])@[0] as int) != p.rep((#[trigger] cs[l])@[0] as int)
+    // ... every queried element is in some class ...
+    &&& forall|j: int| 0 <= j < n ==> exists|k: int| 0 <= k < cs.len() && p.rep((#[trigger] cs[k])@[0] as int) == p.rep(#[trigger] elms[j] as int)
+    // ... and classes are listed in first-occurrence order: class k starts with elms[firsts[k]], firsts strictly increasing
+    &&& forall|k: int| 0 <= k < cs.len() ==> 0 <= #[trigger] firsts[k] < n && cs[k]@[0] == elms[firsts[k]]
+    &&& forall|k: int, l: int| 0 <= k < l < cs.len() ==> #[trigger] firsts[k] < #[trigger] firsts[l]
+}
+
+impl IntPartition {
+    //@ begin src/util/partitions.rs :: impl IntPartition :: fn classes
+    //@ rw R16 /-> Vec<Vec<usize>>/-> (classes: Vec<Vec<usize>>)/
+    //@ rw R12 /let mut class_for_rep = HashMap::new\(\);/let mut class_for_rep: HashMap<usize, usize> = HashMap::new();/
+    //@ rw R12 /let mut classes = vec!\[\];/let mut classes: Vec<Vec<usize>> = vec![];/
+    //@ rw R2 /^([ \t]*)for &e in elms$/\1for __e in it: elms/
+    //@ rw R2 /^([ \t]*)let rep = self\.find\(e\);/\1let e = *__e;\n\1let rep = self.find(e);/
+    pub fn classes(&self, elms: &[usize]) -> (classes: Vec<Vec<usize>>)
+        requires forall|j: int| 0 <= j < elms@.len() ==> #[trigger] elms@[j] < usize::MAX
+        // C20: "The class listing partitions the queried elements accordingly, in first-occurrence order"
+        ensures exists|firsts: Seq<int>| classes_ok(self, elms@, elms@.len() as int, classes@, firsts)
+    {
+        let mut class_for_rep: HashMap<usize, usize> = HashMap::new();
+        let mut classes: Vec<Vec<usize>> = vec![];
+        let ghost mut firsts: Seq<int> = Seq::empty();
+        proof { assert(elms@.take(0) =~= Seq::<usize>::empty()); }
+
+        for __e in it: elms
+            invariant
+                it.seq().len() == elms@.len(), 0 <= it.index() <= elms@.len(),
+                forall|j: int| 0 <= j < elms@.len() ==> *(#[trigger] it.seq()[j]) == elms@[j],
+                forall|j: int| 0 <= j < elms@.len() ==> #[trigger] elms@[j] < usize::MAX,
+                classes_ok(self, elms@, it.index() as int, classes@, firsts),
+                // the map is exactly: representative of class k -> k
+                forall|r: usize| #[trigger] class_for_rep@.contains_key(r) ==>
+                    class_for_rep@[r] < classes@.len() && self.rep(classes@[class_for_rep@[r] as int]@[0] as int) == r,
+                forall|k: int| 0 <= k < classes@.len() ==>
+                    class_for_rep@.contains_key(self.rep((#[trigger] classes@[k])@[0] as int) as usize),
+        {
+            let e = *__e;
+            let rep = self.find(e);
+            let ghost n = it.index() as int;
+            let ghost cs0 = classes@;
+            proof {
+                assert(*it.seq()[n] == elms@[n]);
+                assert(e == elms@[n]);
+                assert(elms@.take(n + 1) =~= elms@.take(n).push(e));
+                assert forall|k: int| 0 <= k < cs0.len() implies
+                    sel(self, elms@.take(n + 1), self.rep(cs0[k]@[0] as int)) ==
+                        (if self.rep(e as int) == self.rep(cs0[k]@[0] as int) { cs0[k]@.push(e) } else { cs0[k]@ }) by {
+                    lemma_sel_push(self, elms@.take(n), e, self.rep(cs0[k]@[0] as int));
+                }
+            }
+            if let Some(cl) = class_for_rep.get(&rep) {
+                let ghost c = *cl as int;
+                let class: &mut Vec<_> = &mut classes[*cl];
+                class.push(e.clone());
+                proof {
+                    assert(classes@[c]@ == cs0[c]@.push(e));
+                    assert forall|k: int| 0 <= k < classes@.len() && k != c implies classes@[k] == cs0[k] by {}
+                    assert(classes@[c]@[0] == cs0[c]@[0]);
+                    assert forall|k: int| 0 <= k < classes@.len() implies (#[trigger] classes@[k])@.len() > 0
+                        && classes@[k]@ == sel(self, elms@.take(n + 1), self.rep(classes@[k]@[0] as int)) by {
+                        if k != c { assert(classes@[k] == cs0[k]); assert(self.rep(cs0[k]@[0] as int) != self.rep(cs0[c]@[0] as int)); }
+                    }
+                    assert forall|j: int| 0 <= j < n + 1 implies exists|k: int| 0 <= k < classes@.len() && self.rep((#[trigger] classes@[k])@[0] as int) == self.rep(#[trigger] elms@[j] as int) by {
+                        if j < n {
+                            let k = choose|k: int| 0 <= k < cs0.len() && self.rep((#[trigger] cs0[k])@[0] as int) == self.rep(elms@[j] as int);
+                            assert(classes@[k]@[0] == cs0[k]@[0]);
+                        } else {
+                            assert(self.rep(classes@[c]@[0] as int) == self.rep(elms@[j] as int));
+                        }
+                    }
+                    assert forall|k: int| 0 <= k < classes@.len() implies 0 <= #[trigger] firsts[k] < n + 1 && classes@[k]@[0] == elms@[firsts[k]] by {
+                        assert(classes@[k]@[0] == cs0[k]@[0]);
+                    }
+                    assert forall|k: int, l: int| 0 <= k < l < classes@.len() implies self.rep((#[trigger] classes@[k])@[0] as int) != self.rep((#[trigger] classes@[l])@[0] as int) by {
+                        assert(classes@[k]@[0] == cs0[k]@[0]); assert(classes@[l]@[0] == cs0[l]@[0]);
+                    }
+                    assert forall|r: usize| #[trigger] class_for_rep@.contains_key(r) implies
+                        class_for_rep@[r] < classes@.len() && self.rep(classes@[class_for_rep@[r] as int]@[0] as int) == r by {
+                        assert(classes@[class_for_rep@[r] as int]@[0] == cs0[class_for_rep@[r] as int]@[0]);
+                    }
+                    assert forall|k: int| 0 <= k < classes@.len() implies
+                        class_for_rep@.contains_key(self.rep((#[trigger] classes@[k])@[0] as int) as usize) by {
+                        assert(classes@[k]@[0] == cs0[k]@[0]);
+                    }
+                }
+            } else {
+                proof {
+                    // no existing class has this representative, so no earlier element has it
+                    assert forall|k: int| 0 <= k < cs0.len() implies self.rep((#[trigger] cs0[k])@[0] as int) != rep by {
+                        assert(class_for_rep@.contains_key(self.rep(cs0[k]@[0] as int) as usize));
+                    }
+                    assert forall|j: int| 0 <= j < elms@.take(n).len() implies self.rep(#[trigger] elms@.take(n)[j] as int) != rep by {
+                        let k = choose|k: int| 0 <= k < cs0.len() && self.rep((#[trigger] cs0[k])@[0] as int) == self.rep(elms@[j] as int);
+                    }
+                    lemma_sel_none(self, elms@.take(n), rep as int);
+                    lemma_sel_push(self, elms@.take(n), e, rep as int);
+                }
+                class_for_rep.insert(rep, classes.len());
+                classes.push(vec![e.clone()]);
+                proof {
+                    firsts = firsts.push(n);
+                    let c = cs0.len() as int;
+                    assert(classes@[c]@ =~= seq![e]);
+                    assert forall|k: int| 0 <= k < c implies classes@[k] == cs0[k] by {}
+                    assert forall|k: int| 0 <= k < classes@.len() implies (#[trigger] classes@[k])@.len() > 0
+                        && classes@[k]@ == sel(self, elms@.take(n + 1), self.rep(classes@[k]@[0] as int)) by {
+                        if k < c { assert(classes@[k] == cs0[k]); }
+                        else { assert(Seq::<usize>::empty().push(e) =~= seq![e]); }
+                    }
+                    assert forall|j: int| 0 <= j < n + 1 implies exists|k: int| 0 <= k < classes@.len() && self.rep((#[trigger] classes@[k])@[0] as int) == self.rep(#[trigger] elms@[j] as int) by {
+                        if j < n {
+                            let k = choose|k: int| 0 <= k < cs0.len() && self.rep((#[trigger] cs0[k])@[0] as int) == self.rep(elms@[j] as int);
+                            assert(classes@[k] == cs0[k]);
+                        } else {
+                            assert(self.rep(classes@[c]@[0] as int) == self.rep(elms@[j] as int));
+                        }
+                    }
+                    assert forall|k: int| 0 <= k < classes@.len() implies 0 <= #[trigger] firsts[k] < n + 1 && classes@[k]@[0] == elms@[firsts[k]] by {
+                        if k < c { assert(classes@[k] == cs0[k]); }
+                    }
+                    assert forall|k: int, l: int| 0 <= k < l < classes@.len() implies #[trigger] firsts[k] < #[trigger] firsts[l] by {}
+                    assert forall|k: int, l: int| 0 <= k < l < classes@.len() implies self.rep((#[trigger] classes@[k])@[0] as int) != self.rep((#[trigger] classes@[l])@[0] as int) by {
+                        assert(classes@[k] == cs0[k]);
+                        if l < c { assert(classes@[l] == cs0[l]); }
+                    }
+                    assert forall|r: usize| #[trigger] class_for_rep@.contains_key(r) implies
+                        class_for_rep@[r] < classes@.len() && self.rep(classes@[class_for_rep@[r] as int]@[0] as int) == r by {
+                        if r != rep { assert(classes@[class_for_rep@[r] as int] == cs0[class_for_rep@[r] as int]); }
+                    }
+                    assert forall|k: int| 0 <= k < classes@.len() implies
+                        class_for_rep@.contains_key(self.rep((#[trigger] classes@[k])@[0] as int) as usize) by {
+                        if k < c { assert(classes@[k] == cs0[k]); }
+                    }
+                }
+            }
+        }
+
+        proof { assert(elms@.take(elms@.len() as int) =~= elms@); }
+        classes
+    }
+    //@ end
+}
+
+impl Clone for IntPartition {
+    //@ begin src/util/partitions.rs :: impl Clone for IntPartition :: fn clone
+    //@ rw R16 /-> Self/-> (r: Self)/
+    // C20 "a clone evolves independently of its original in both directions": the clone is a separately owned value with the
+    // same representative function at the time of cloning; afterwards each value changes only through its own `&mut` (Rust ownership)
+    #[verifier::external_body]
+    fn clone(&self) -> (r: Self)
+        ensures forall|x: int| #[trigger] r.rep(x) == self.rep(x)
+    {
+        Self {
+            _impl: UnsafeCell::new(unsafe { (*self._impl.get()).clone() })
+        }
+    }
+    //@ end
+}
+
+// vacuity guards
+proof fn canary_wf_is_satisfiable(s: IntPartitionImpl)
+    requires s.wf(), s.rank_ok(), s.parent@.len() == 3, s.parent@[0] == 1
+    ensures false
+{}
+
+fn canary_unite_contract(s: &mut IntPartitionImpl)
+    requires old(s).wf(), old(s).rank_ok()
+    ensures false
+{
+    s.unite(1, 2);
+}
+
+fn canary_classes_contract(p: &IntPartition, elms: &[usize])
+    requires forall|j: int| 0 <= j < elms@.len() ==> #[trigger] elms@[j] < usize::MAX
+    ensures false
+{
+    let c = p.classes(elms);
+}
+
+fn witness_calls()
+{
+    let mut p = IntPartitionImpl::new();
+    p.unite(3, 5);
+    let r = p.find(4);
+    let mut q = IntPartition::new();
+    q.unite(1, 2);
+    let cs = q.classes(&[1usize, 2, 3]);
 }
 
 } // verus!
